@@ -31,8 +31,9 @@ func (*c12) Rule() string {
 		"kinds ConfigMap (mostly) / Secret / ServiceAccount, names from a 4-name pool (same name under two kinds and the same key twice occur), " +
 		"weights -2..2 (ties frequent), 1-3 events per hook biased to the events of the operations in the history, an event repeated in one " +
 		"annotation 1/8, every subset of the three delete policies; flags no-hooks 1/8, atomic 1/8, cleanup-on-fail 1/6, keep-history 1/2; " +
-		"per operation one of: no fault (45%), the n-th (0/1) watch of one hook fails (40%), POST of a hook resource rejected (10%), DELETE of a " +
-		"hook resource rejected (5%); non-trivial = some operation issued at least 2 hook creations or had a failing hook; distinct = hash of (case, observation)"
+		"per operation one of: no fault (45%), the n-th (0/1) watch of one hook fails (33%), POST of a hook resource rejected (8%), DELETE of a " +
+		"hook resource rejected (4%), a non-hook failure (10%: readiness wait fails / CREATE of a manifest resource rejected; always drawn for half of the " +
+		"atomic operations, so that the automatic uninstall / rollback runs with hooks enabled and disabled); non-trivial = some operation issued at least 2 hook creations or had a failing hook; distinct = hash of (case, observation)"
 }
 
 func (*c12) Decode(raw json.RawMessage) (any, error) {
@@ -103,6 +104,26 @@ func (*c12) Corpus() []any {
 	out = append(out, hist(withH(c12Op("install", 1, eng.Flags{Atomic: true}, probeHooks(all...), "a"), "hd", 0)))
 	out = append(out, hist(c12Op("install", 1, eng.Flags{}, probeHooks(all...), "a"),
 		withH(c12Op("upgrade", 2, eng.Flags{Atomic: true}, probeHooks(all...), "a", "b"), "hd", 0)))
+	// 5b. hooks disabled cover the WHOLE operation, the automatic recovery included: an atomic upgrade / install with
+	//     no-hooks that fails for a non-hook reason (wait failure, rejected request) on a release whose revisions carry
+	//     rollback / delete hooks — the automatic rollback / uninstall must not touch a hook either
+	wf := func(op *eng.Op) *eng.Op { o := *op; o.WaitFail = true; return &o }
+	recHooks := []eng.Hook{
+		hk("hr", 0, []string{"pre-rollback", "post-rollback", "pre-delete", "post-delete"}),
+		hk("hs", 1, []string{"pre-rollback", "post-delete", "pre-upgrade", "post-upgrade", "pre-install"}, "hook-succeeded"),
+	}
+	for _, first := range []eng.Flags{{}, {NoHooks: true}} {
+		out = append(out, hist(c12Op("install", 1, first, recHooks, "a"),
+			wf(c12Op("upgrade", 2, eng.Flags{Atomic: true, NoHooks: true}, recHooks, "a", "b"))))
+		out = append(out, hist(c12Op("install", 1, first, recHooks, "a"),
+			withK(c12Op("upgrade", 2, eng.Flags{Atomic: true, NoHooks: true}, recHooks, "a", "b"), "create", "ConfigMap/b")))
+	}
+	out = append(out, hist(wf(c12Op("install", 1, eng.Flags{Atomic: true, NoHooks: true}, recHooks, "a"))))
+	out = append(out, hist(withK(c12Op("install", 1, eng.Flags{Atomic: true, NoHooks: true}, recHooks, "a", "b"), "create", "ConfigMap/b")))
+	//     ... and with hooks enabled the recovery does run them (the model must agree on both)
+	out = append(out, hist(c12Op("install", 1, eng.Flags{}, recHooks, "a"),
+		wf(c12Op("upgrade", 2, eng.Flags{Atomic: true}, recHooks, "a", "b"))))
+	out = append(out, hist(wf(c12Op("install", 1, eng.Flags{Atomic: true}, recHooks, "a"))))
 	// 6. equal weight and name under two kinds: the kind-sorted input order decides (stable sort)
 	st := []eng.Hook{
 		{Res: cm("hx", "d:h", "1"), Events: []string{"pre-install"}, Weight: 1},
